@@ -12,7 +12,7 @@ import z3
 from .sorts import *  # noqa
 from .ops import Unsupported, Exc, simp
 from .state import State, Container
-from .engine import Engine, exc_isa
+from .engine import Engine, exc_isa, _has_quant
 from . import builtins as B
 
 
@@ -216,7 +216,9 @@ class Verifier:
         if not self.spec.applicable(K, a):
             yield from self._inline(fi, args, kwargs, state, node, qual)
             return
-        for name in K.inv:
+        invs = K.inv_for(a) if hasattr(K, "inv_for") else K.inv
+        mods = K.modifies_for(a) if hasattr(K, "modifies_for") else K.modifies
+        for name in invs:
             for nm, f in self.spec.invariant(name, pre):
                 self.add("call-pre", "%s:inv:%s" % (site, nm), state, f)
         for nm, f in K.requires(pre, a):
@@ -241,7 +243,7 @@ class Verifier:
         if not eng.feasible(st):
             return
         # havoc
-        for m in K.modifies:
+        for m in mods:
             if m.startswith("new:"):
                 cls = m[4:]
                 old_alive = st.alive_array(cls)
@@ -270,14 +272,19 @@ class Verifier:
             else:
                 st.writes.add(m)
         ret = K.ret(a) if callable(K.ret) else K.ret
-        result = self.make(ret, st, "ret_" + fq.split(".")[-1]) if ret is not None else NONE
-        post = Ctx(eng, st, old=pre)
-        for nm, f in K.ensures(post, a, result):
-            st.assume(f)
-        for name in K.inv:
-            for nm, f in self.spec.invariant(name, post):
-                st.assume(f)
-        yield result, st
+        alts = ret if isinstance(ret, list) else [ret]
+        for ri, rt in enumerate(alts):
+            s9 = st.fork() if len(alts) > 1 else st
+            result = self.make(rt, s9, "ret_" + fq.split(".")[-1]) if rt is not None else NONE
+            post = Ctx(eng, s9, old=pre)
+            for nm, f in K.ensures(post, a, result):
+                s9.assume(f)
+            for name in invs:
+                for nm, f in self.spec.invariant(name, post):
+                    s9.assume(f)
+            if len(alts) > 1 and not eng.feasible(s9):
+                continue
+            yield result, s9
 
     def _inline(self, fi, args, kwargs, state, node, qual):
         """contract not applicable to these arguments: execute the body instead"""
@@ -459,7 +466,9 @@ class Verifier:
         vals = [self.make(t, st, p) for p, t in zip(params, combo)]
         a = Args(dict(zip(params, vals)))
         pre = Ctx(eng, st)
-        for name in K.inv:
+        invs = K.inv_for(a) if hasattr(K, "inv_for") else K.inv
+        mods = K.modifies_for(a) if hasattr(K, "modifies_for") else K.modifies
+        for name in invs:
             for nm, f in self.spec.invariant(name, pre):
                 st.assume(f)
         for nm, f in K.requires(pre, a):
@@ -489,10 +498,10 @@ class Verifier:
                     s2.assume(f)
                 for nm, f in K.ensures(post, a, payload):
                     self.add("post", nm, s2, f)
-                for name in K.inv:
+                for name in invs:
                     for nm, f in self.spec.invariant(name, post):
                         self.add("inv", nm, s2, f)
-                self._frame(K, s2, pre_state)
+                self._frame(K, s2, pre_state, mods)
             else:
                 matching = [(e, w, l) for e, w, l in whens if exc_isa(payload.cls, e)]
                 if not matching and not any(exc_isa(payload.cls, e) for e in K.may_raise):
@@ -505,9 +514,10 @@ class Verifier:
                     self.add("exc-post", "%s:%s" % (payload.cls, nm), s2, f)
         out["paths"] += npaths
 
-    def _frame(self, K, st, pre_state):
+    def _frame(self, K, st, pre_state, mods=None):
         allowed = set()
-        for m in K.modifies:
+        mods = K.modifies if mods is None else mods
+        for m in mods:
             if m.startswith("new:"):
                 cls = m[4:]
                 # only freshly allocated objects of cls may have been written
@@ -515,7 +525,7 @@ class Verifier:
                 r = z3.Const("r!fr", Ref(cls))
                 for fld in self.schema.fields.get(cls, {}):
                     allowed.add("%s.%s" % (cls, fld))
-                    if "%s.%s" % (cls, fld) in K.modifies:
+                    if "%s.%s" % (cls, fld) in mods:
                         continue  # declared as written on existing objects too: the contract must describe it
                     if (cls, fld) in st.heap and (cls, fld) in pre_state.heap and not z3.eq(st.heap[(cls, fld)], pre_state.heap[(cls, fld)]):
                         self.add("frame", "old-%s.%s-unchanged" % (cls, fld), st,
@@ -617,6 +627,41 @@ def _consts_of(f):
     return out
 
 
+_GT = {}
+
+
+def _obj_terms_of(f):
+    """ground sub-terms of uninterpreted (object) sorts, e.g. H_Unit_prefix[H_Quantity_unit[self]]"""
+    k = f.get_id()
+    hit = _GT.get(k)
+    if hit is not None:
+        return hit[0]
+    out, seen = {}, set()
+
+    def walk(x, depth):
+        """returns True when x is ground (no bound variable below)"""
+        if z3.is_var(x):
+            return False
+        if z3.is_quantifier(x):
+            walk(x.body(), depth + 1)
+            return False
+        i = x.get_id()
+        ground = True
+        for ch in x.children():
+            if not walk(ch, depth):
+                ground = False
+        if ground and i not in seen and x.num_args() > 0 and (
+                x.sort().kind() == z3.Z3_UNINTERPRETED_SORT
+                or (x.sort().kind() == z3.Z3_DATATYPE_SORT and x.sort().name().startswith("Map_") and x.decl().kind() != z3.Z3_OP_DT_CONSTRUCTOR)):
+            seen.add(i)
+            out.setdefault(x.sort().name(), {})[i] = x
+        return ground
+
+    walk(f, 0)
+    _GT[k] = (out, f)
+    return out
+
+
 def _ground_consts(fs):
     """0-ary uninterpreted constants by sort name"""
     out = {}
@@ -638,6 +683,13 @@ def preinstantiate(hyps, goal_i, rounds=2, cap=6, terms=None):
             if sname in ("Int", "Real", "Bool", "String"):
                 continue  # objects: every constant of the sort
             terms[sname] = list(d.values())[:cap]
+        # compound object terms of the goal and of the ground hypotheses (field reads)
+        for f in [goal_i] + [h for h in _flatten(hyps) if not z3.is_quantifier(h)]:
+            for sname, d in _obj_terms_of(f).items():
+                lst = terms.setdefault(sname, [])
+                for t in d.values():
+                    if len(lst) < cap + 6 and all(not z3.eq(t, x) for x in lst):
+                        lst.append(t)
         for sname in ("Int",):
             terms[sname] = [c for c in consts.get(sname, {}).values() if "!g" in c.decl().name()][:cap]
     extra, frontier = [], _flatten(hyps)
@@ -686,14 +738,30 @@ def _portfolio(self, ob):
     total = 0.0
     T = self.timeout_ms
     last = None
-    for hyps, pre, budget in ((full, False, 1000), (full, True, 3000), (qf, False, 3000), (full, False, T), (full, True, T)):
-        if hyps is qf and len(qf) == len(full):
-            continue
-        r, dt, s = _check_one(hyps, ob.goal, min(budget, T), pre=pre)
+    g = intro(ob.goal)
+    for strat, budget in (("plain", 300), ("qfi", 3000), ("plain", 1500), ("pre", 3000), ("qf", 3000), ("plain", T), ("qfi", T), ("pre", T)):
+        if strat == "qf":
+            if len(qf) == len(full):
+                continue
+            r, dt, s = _check_one(qf, ob.goal, min(budget, T), pre=False)
+        elif strat == "qfi":
+            # quantifier-free core: ground hypotheses plus hand instances of the universal
+            # ones at the constants of the query; a subset of valid consequences, so unsat is a proof
+            inst = preinstantiate(full, g)
+            core = [f for f in _flatten(list(full) + inst) if not _has_quant(f)]
+            s = z3.Solver()
+            s.set(timeout=min(budget, T))
+            s.add(*core)
+            s.add(z3.Not(g))
+            t0 = time.time()
+            r = s.check()
+            dt = (time.time() - t0) * 1000
+        else:
+            r, dt, s = _check_one(full, ob.goal, min(budget, T), pre=(strat == "pre"))
         total += dt
         if r == z3.unsat:
             return r, total, None, ""
-        if hyps is full:
+        if strat in ("plain", "pre"):
             last = (r, s)
             if r == z3.sat:
                 return r, total, s.model(), ""
